@@ -935,7 +935,9 @@ func settledObservation(base int, take func() *observation, ok func(*observation
 
 func newRegistry(kind string) (domain.ModelRegistry, *registry.UnifiedMemoryModelRegistry, error) {
 	cfg := config.DefaultConfig().ModelRegistry
-	rc := registry.RegistryConfig{Type: cfg.Type, EnableUnifier: kind == "unified", UnificationConf: &cfg.Unification}
+	// same wiring as internal/app/services/discovery.go with config.DefaultConfig().ModelRegistry
+	// (the default "strict" routing strategy needs no discovery service)
+	rc := registry.RegistryConfig{Type: cfg.Type, EnableUnifier: kind == "unified", UnificationConf: &cfg.Unification, RoutingStrategy: &cfg.RoutingStrategy}
 	reg, err := registry.NewModelRegistry(rc, hx.QuietLogger())
 	if err != nil {
 		return nil, nil, err
